@@ -10,8 +10,11 @@ type c16Result struct {
 	out, err, body string
 }
 
+var c16ErrorPage = "err"
+
 func c16Tree() *Template {
 	vfsReset()
+	vfsWriteFile("templates/errbad.tw", "E{{ nope }}")
 	vfsWriteFile("templates/layouts/main.tw", "L[@reserve(\"r\")]")
 	vfsWriteFile("templates/components/card.tw", "<c>{{ t }}</c>")
 	vfsWriteFile("templates/ok.tw", "@use(\"~main\")@insert(\"r\")@each(v in vs)@component(\"~card\", {t: v})@end@end")
@@ -21,7 +24,7 @@ func c16Tree() *Template {
 	vfsWriteFile("templates/prof.tw", "<{{ u.name }}>")
 	vfsWriteFile("templates/setter.tw", "{{ h = \"H\" }}[{{ h }}]")
 	vfsWriteFile("templates/reader.tw", "({{ h }})")
-	tpl, err := NewTemplate(&config.Config{TemplateDir: "templates", TemplateExt: ".tw", ErrorPagePath: "err"})
+	tpl, err := NewTemplate(&config.Config{TemplateDir: "templates", TemplateExt: ".tw", ErrorPagePath: c16ErrorPage})
 	vAssert(err == nil && tpl != nil, "tree-loads")
 	return tpl
 }
@@ -102,7 +105,9 @@ func c16Same(a, b c16Result) bool {
 // HarnessC16History: the result of a probe operation is the same whatever operations ran before it, and no
 // operation stores to the loaded templates, the configuration, the registry or package state.
 func HarnessC16History() {
-	tpl := c16Tree()
+	c16ErrorPage = []string{"err", "errbad"}[vChoice("error-page", 2)]
+	fresh := c16Tree() // the probe on this freshly loaded Template is the baseline
+	tpl := c16Tree()   // the history and the second probe run on this one
 	s := string([]byte{vByte("s")})
 	// the divisor is any int64: the solver decides whether renders of bad / EvaluateString fail (d == 0)
 	d := vInt64("d")
@@ -113,7 +118,7 @@ func HarnessC16History() {
 	vFreeze()
 	vShare(tpl) // the loaded Template and every AST it holds
 	snap := c16Snapshot(tpl)
-	base := c16Op(tpl, probeOp, probeName, d, s)
+	base := c16Op(fresh, probeOp, probeName, d, s)
 	h := vChoice("history", vParam("H")+1)
 	for i := 0; i < h; i++ {
 		op, name := vChoice("op", 4), 0
